@@ -345,3 +345,111 @@ func (c *Ctx) storeOptionsFromConfig() {
 		c.bad("store-options", 0, "only %d store constructions with options found in cmd/desync", n)
 	}
 }
+
+// messageBodyFresh: a chunk built from a protocol message keeps the message body as its stored
+// form (it is passed on unconverted by a chunk server in front of an ssh store), so the body must
+// be the message's own allocation: what Protocol.ReadMessage returns as Body derives only from
+// reader.ReadN (a fresh buffer per call), never from a buffer kept in the session.
+func (c *Ctx) messageBodyFresh() {
+	fn := c.mustFn("Protocol.ReadMessage")
+	if fn == nil {
+		return
+	}
+	n := 0
+	for _, r := range returnsOf(fn) {
+		if len(r.Results) != 2 {
+			continue
+		}
+		// the Message value: follow to the stores into its Body field, or a struct literal
+		for _, body := range messageBodies(unspill(r, r.Results[0])) {
+			n++
+			fresh := true
+			why := ""
+			var ls []ssa.Value
+			for _, l := range leaves(body) {
+				if inner := stripSlices(l); inner != l {
+					ls = append(ls, leaves(inner)...) // b[8:] of the buffer is still the buffer
+				} else {
+					ls = append(ls, l)
+				}
+			}
+			for _, l := range ls {
+				if k, isK := l.(*ssa.Const); isK && k.Value == nil {
+					continue
+				}
+				if call, idx := callOf(l); call != nil && idx == 0 && callee(call) == "(desync.reader).ReadN" {
+					continue
+				}
+				if _, isMk := l.(*ssa.MakeSlice); isMk {
+					continue
+				}
+				fresh = false
+				why = strings.Join(origins(l), ",")
+			}
+			c.verdict(fresh, "Protocol.ReadMessage:body-fresh", r.Pos(), "the returned body is the buffer ReadN allocated for this message",
+				"the returned message body is not this message's own buffer ("+why+"): a chunk built from it aliases memory the next message on the session overwrites")
+		}
+	}
+	if n == 0 {
+		c.bad("Protocol.ReadMessage:body-fresh", fn.Pos(), "no returned message body found")
+	}
+}
+
+// messageBodies finds the values stored into the Body field of the Message value v.
+func messageBodies(v ssa.Value) []ssa.Value {
+	var out []ssa.Value
+	for _, l := range leaves(v) {
+		switch x := l.(type) {
+		case *ssa.UnOp: // load of a local Message
+			if al, ok := x.X.(*ssa.Alloc); ok && x.Op == token.MUL && al.Referrers() != nil {
+				for _, r := range *al.Referrers() {
+					if fa, ok := r.(*ssa.FieldAddr); ok && fieldOf(fa) == "Message.Body" && fa.Referrers() != nil {
+						for _, r2 := range *fa.Referrers() {
+							if st, ok := r2.(*ssa.Store); ok && st.Addr == ssa.Value(fa) {
+								out = append(out, st.Val)
+							}
+						}
+					}
+				}
+			}
+		}
+	}
+	return out
+}
+
+// noStdoutInLibrary: archives and blobs are written to standard output ("desync tar - dir",
+// "cat"), so the library must never print there itself: no fmt.Print*, no use of os.Stdout
+// outside the one store whose purpose is to write an index to the console.
+func (c *Ctx) noStdoutInLibrary() {
+	allowed := map[string]string{"ConsoleIndexStore.StoreIndex": "writes the index to the console by design"}
+	n := 0
+	for _, fn := range c.libFuncs() {
+		key := fnKey(topOf(fn))
+		for _, b := range fn.Blocks {
+			for _, ins := range b.Instrs {
+				what := ""
+				if ci, ok := ins.(ssa.CallInstruction); ok {
+					switch callee(ci) {
+					case "fmt.Print", "fmt.Printf", "fmt.Println", "builtin:print", "builtin:println":
+						what = callee(ci)
+					}
+				}
+				if u, ok := ins.(*ssa.UnOp); ok && u.Op == token.MUL {
+					if g, ok := u.X.(*ssa.Global); ok && g.Pkg != nil && g.Pkg.Pkg.Path() == "os" && g.Name() == "Stdout" {
+						what = "os.Stdout"
+					}
+				}
+				if what == "" {
+					continue
+				}
+				n++
+				if why, ok := allowed[key]; ok {
+					c.info(key+":"+what, ins.Pos(), "exception: %s", why)
+					continue
+				}
+				c.bad(key+":"+what, ins.Pos(), "the library writes to standard output (%s): when the archive or blob itself goes to stdout the message lands in the middle of it", what)
+			}
+		}
+	}
+	c.ok("library:stdout", 0, "%d use(s) of standard output in the library, all in the console index store", n)
+}
